@@ -173,12 +173,22 @@ def main():
             if rt == "float32" and c["kind"] == "ns3d" and (c["width"] > 2 or c["filter"] not in (None, ("multiplicative", 2))):
                 continue
             chk.add(flow_step, real_t=rt, cfg=c)
+    # a simulator constructed (and stepped) earlier in the same process with another domain length / precision must not matter
+    later = [dict(kind="ns3d", shape=(4, 4, 5), forcing=True, free_stream=False, filter=None, solver="greens_function_convolution", width=1, x_range=2.5),
+             dict(kind="ns2d", shape=(6, 7), forcing=False, free_stream=True, width=1, x_range=0.5),
+             dict(kind="ns3d", shape=(4, 4, 5), forcing=False, free_stream=False, filter=("multiplicative", 1), solver="fast_diagonalisation", width=0, x_range=2.0)]
+    for c in later:
+        chk.add(flow_step, real_t="float64", cfg=c, _earlier=[dict(cfg=dict(c, x_range=1.0))])
+    if not chk.quick:
+        for c in later:
+            chk.add(flow_step, real_t="float32", cfg=c, _earlier=[dict(cfg=dict(c, x_range=1.0)), dict(cfg=dict(c, x_range=1.0), _real_t="float64")])
     if chk.quick:
         chk.add(flow_step, real_t="float32", cfg=dict(kind="ns2d", shape=(6, 7), forcing=True, free_stream=True, width=2))
         chk.add(flow_step, real_t="float32", cfg=dict(kind="passive", shape=(5, 6, 5), field_type="vector"))
     chk.bounds = [f"{len(cfgs)} configurations ({'pairwise-covering subset' if chk.quick else 'full product forcing x free stream x width 0..4 (2D); x filter(7) x solver(2) (3D); passive scalar/vector'})",
                   "grids: 2D (6,7) for widths <= 2, (9,10) for widths 3-4; 3D (4,4,5) for widths <= 2, (8,8,9) with the Poisson stage cut out for widths 3-4; passive (6,7), (5,6,7), (5,6,5)",
                   f"precisions {rts}; tolerances {TOL} (absolute, cut variables in [-1,1]); all field values, dt, nu, rho > 0, free stream, clock and every scratch buffer symbolic"]
+    chk.bounds.append("later-object instances: a simulator with another x_range (thorough: also another precision) is constructed and stepped first in the same process")
     chk.outside = ["larger grids / other shapes", "rounding (exact reals)", "the Poisson stage on the wide-zone 3-D grids (covered on the small grids; independent of the zone width)", "grids with overlapping damping zones (n < 2*width)"]
     chk.assumptions = ["cut points: the arrays entering boundary damping and the curl are replaced by fresh variables in [-1,1]; soundness: an unsat result over arbitrary values holds for the real ones; bounds are a normalisation (all stages after a cut are linear)",
                        "FFTW = exact DFT (validated in C03); LAPACK tables = data"]
